@@ -183,7 +183,7 @@ class SrcInfo:
             hdr = hdr.split(' where ')[0].strip()
             m = re.match(r'^(.*?)\s+for\s+(.*)$', hdr, re.S)
             if m:
-                return (_last_seg(m.group(1)), _last_seg(m.group(2)))
+                return (_last_seg(m.group(1)) + _trait_args(m.group(1)), _last_seg(m.group(2)))
             return (None, _last_seg(hdr))
         # derive: name at [col, ecol)
         dname = l[col - 1:ecol - 1]
@@ -192,6 +192,16 @@ class SrcInfo:
             if m:
                 return (dname, m.group(1))
         return None
+
+
+def _trait_args(t):
+    """normalised generic arguments of a trait reference: From<WritableBuffer> -> '<WritableBuffer>'"""
+    t = t.strip()
+    i = t.find('<')
+    if i < 0 or not t.endswith('>'):
+        return ''
+    inner = t[i + 1:-1]
+    return '<' + ','.join(_last_seg(x) for x in _split_top(inner)) + '>'
 
 
 def _last_seg(t):
